@@ -751,6 +751,37 @@ func (p *Prog) unguardedCallSites(fn *ssa.Function, params []*ssa.Parameter, una
 	return bad
 }
 
+// roundTripFact: the facts say w == int64(intN(w)) for a narrower intN: w
+// survives the round trip through the narrower type, so it lies in its range.
+func roundTripFact(fs []Fact, w ssa.Value) bool {
+	for _, f := range fs {
+		bo, ok := f.Cond.(*ssa.BinOp)
+		if !ok || !((bo.Op == token.EQL && f.Truth) || (bo.Op == token.NEQ && !f.Truth)) {
+			continue
+		}
+		for _, pair := range [][2]ssa.Value{{bo.X, bo.Y}, {bo.Y, bo.X}} {
+			if !sameValue(pair[0], w) {
+				continue
+			}
+			outer, ok := pair[1].(*ssa.Convert)
+			if !ok {
+				continue
+			}
+			inner, ok := outer.X.(*ssa.Convert)
+			if !ok || !sameValue(inner.X, w) {
+				continue
+			}
+			if bt, ok := inner.Type().Underlying().(*types.Basic); ok {
+				switch bt.Kind() {
+				case types.Int32, types.Int16, types.Int8:
+					return true
+				}
+			}
+		}
+	}
+	return false
+}
+
 // rangeCheckedUses: the uses of v (through phis) that are not preceded by a
 // two-sided constant range test narrower than int64. A use that returns the
 // value is followed into every caller of the function.
@@ -769,9 +800,31 @@ func (p *Prog) rangeCheckedUses(v0 ssa.Value, two63 float64, depth int) (badUses
 	}
 	for v := range web {
 		for _, r := range *v.Referrers() {
-			switch r.(type) {
+			switch x := r.(type) {
 			case *ssa.Phi, *ssa.BinOp, *ssa.If, *ssa.DebugRef:
 				continue
+			case *ssa.Call:
+				if purePredicate(x.Call.StaticCallee()) {
+					continue // handed to a named test (outsideInt32(n)): a comparison, not a use
+				}
+			case *ssa.Convert:
+				// the narrowing half of a round-trip test x == int64(int32(x))
+				rt := true
+				for _, u := range *x.Referrers() {
+					back, ok := u.(*ssa.Convert)
+					if !ok {
+						rt = false
+						break
+					}
+					for _, u2 := range *back.Referrers() {
+						if bo, ok := u2.(*ssa.BinOp); !ok || (bo.Op != token.EQL && bo.Op != token.NEQ) {
+							rt = false
+						}
+					}
+				}
+				if rt && len(*x.Referrers()) > 0 {
+					continue
+				}
 			}
 			nuses++
 			ufs := factsAt(r.Block())
@@ -779,6 +832,9 @@ func (p *Prog) rangeCheckedUses(v0 ssa.Value, two63 float64, depth int) (badUses
 			for w := range web {
 				lo, hi := rangeLimited(ufs, w, -two63+1, two63-1025)
 				if lo && hi {
+					good = true
+				}
+				if roundTripFact(ufs, w) {
 					good = true
 				}
 			}
@@ -925,15 +981,7 @@ var ruleListIndex = &Rule{
 						onTrue := pr.Succs[0] == cur
 						switch c := iff.Cond.(type) {
 						case *ssa.BinOp:
-							call, ok := c.X.(*ssa.Call)
-							if !ok {
-								continue
-							}
-							bi, ok := call.Call.Value.(*ssa.Builtin)
-							if !ok || bi.Name() != "len" {
-								continue
-							}
-							lb, ok := loadOfField(call.Call.Args[0], "list")
+							lb, ok := listLenOf(c.X, "list")
 							if !ok || lb != base {
 								continue
 							}
